@@ -140,6 +140,10 @@ RULE = ("all schedules of the shared engine program catalog (fan-out, retries, c
         "HITL, resume) plus a request event that is also the input of a retried step; per processed tick the published PREPARING/RUNNING/NOT_RUNNING events are compared with "
         "the change of the runner's queue / in-progress sets, per slot the stream must match (RUNNING NOT_RUNNING)*; "
         "non-trivial = at least one deviation from the default schedule")
+from vmc.tables import _ROUND7 as _R7  # noqa: E402
+
+RULE += _R7["C35"]
+
 
 
 def wf_request_consumed_with_retry(delay: float) -> type:
